@@ -382,6 +382,9 @@ class ExprMixin(ExecBase):
         if k == 'obj' and container.ty.cls == 'str' and x.ty.kind == 'obj':
             f = z3.Function('str_contains', Ref, Ref, z3.BoolSort())
             return f(container.term, x.term)
+        if k == 'obj' and container.ty.cls == 'PySet':
+            m = self.read_field(container.term, 'set_members')
+            return z3.Select(m.term, coerce(x, STR).term)
         if k == 'py' and container.py and container.py[0] == 'weakset':
             f = z3.Function('in_weakset', Ref, z3.BoolSort())
             return f(coerce(x, ANY).term)
